@@ -20,21 +20,44 @@ pub enum Fault {
     /// every entry from i on has id = index + 1
     ShiftIds(u32),
     /// the name of field `field` of entry `entry` (variant `variant`) toggled -> named/unnamed mix
-    MixFields { entry: u32, variant: Option<usize>, field: usize },
+    MixFields {
+        entry: u32,
+        variant: Option<usize>,
+        field: usize,
+    },
     CompactPathNone,
     BitsPathNone,
     /// reference `site` redirected to a missing id
-    Dangling { site: Site, to: u32 },
+    Dangling {
+        site: Site,
+        to: u32,
+    },
 }
 
 #[derive(Clone, Debug, PartialEq, Eq, Hash, Serialize, Deserialize)]
 pub enum Site {
-    Field { entry: u32, variant: Option<usize>, field: usize },
-    Elem { entry: u32 },
-    TupleElem { entry: u32, index: usize },
-    BitStore { entry: u32 },
-    BitOrder { entry: u32 },
-    TypeParam { entry: u32, index: usize },
+    Field {
+        entry: u32,
+        variant: Option<usize>,
+        field: usize,
+    },
+    Elem {
+        entry: u32,
+    },
+    TupleElem {
+        entry: u32,
+        index: usize,
+    },
+    BitStore {
+        entry: u32,
+    },
+    BitOrder {
+        entry: u32,
+    },
+    TypeParam {
+        entry: u32,
+        index: usize,
+    },
 }
 
 impl Site {
@@ -77,7 +100,11 @@ pub fn inject(base: &PortableRegistry, f: &Fault) -> PortableRegistry {
                 t.id += 1;
             }
         }
-        Fault::MixFields { entry, variant, field } => {
+        Fault::MixFields {
+            entry,
+            variant,
+            field,
+        } => {
             if let Some(fs) = fields_mut(&mut r, *entry, *variant) {
                 let f = &mut fs[*field];
                 f.name = match f.name {
@@ -90,7 +117,11 @@ pub fn inject(base: &PortableRegistry, f: &Fault) -> PortableRegistry {
         Fault::Dangling { site, to } => {
             let to = *to;
             match site {
-                Site::Field { entry, variant, field } => {
+                Site::Field {
+                    entry,
+                    variant,
+                    field,
+                } => {
                     if let Some(fs) = fields_mut(&mut r, *entry, *variant) {
                         fs[*field].ty = to.into();
                     }
@@ -138,25 +169,26 @@ pub fn faults_of(base: &PortableRegistry) -> Vec<Fault> {
     let missing = n + 2;
     for t in &base.types {
         let e = t.id;
-        let mut field_sites = |variant: Option<usize>, fs: &[scale_info::Field<PortableForm>], v: &mut Vec<Fault>| {
-            for k in 0..fs.len() {
-                if fs.len() >= 2 {
-                    v.push(Fault::MixFields {
-                        entry: e,
-                        variant,
-                        field: k,
+        let mut field_sites =
+            |variant: Option<usize>, fs: &[scale_info::Field<PortableForm>], v: &mut Vec<Fault>| {
+                for k in 0..fs.len() {
+                    if fs.len() >= 2 {
+                        v.push(Fault::MixFields {
+                            entry: e,
+                            variant,
+                            field: k,
+                        });
+                    }
+                    v.push(Fault::Dangling {
+                        site: Site::Field {
+                            entry: e,
+                            variant,
+                            field: k,
+                        },
+                        to: missing,
                     });
                 }
-                v.push(Fault::Dangling {
-                    site: Site::Field {
-                        entry: e,
-                        variant,
-                        field: k,
-                    },
-                    to: missing,
-                });
-            }
-        };
+            };
         match &t.ty.type_def {
             TypeDef::Composite(c) => field_sites(None, &c.fields, &mut v),
             TypeDef::Variant(var) => {
@@ -164,10 +196,12 @@ pub fn faults_of(base: &PortableRegistry) -> Vec<Fault> {
                     field_sites(Some(i), &x.fields, &mut v);
                 }
             }
-            TypeDef::Sequence(_) | TypeDef::Array(_) | TypeDef::Compact(_) => v.push(Fault::Dangling {
-                site: Site::Elem { entry: e },
-                to: missing,
-            }),
+            TypeDef::Sequence(_) | TypeDef::Array(_) | TypeDef::Compact(_) => {
+                v.push(Fault::Dangling {
+                    site: Site::Elem { entry: e },
+                    to: missing,
+                })
+            }
             TypeDef::Tuple(tu) => {
                 for i in 0..tu.fields.len() {
                     v.push(Fault::Dangling {
@@ -232,11 +266,22 @@ struct Walk<'a> {
 impl<'a> Walk<'a> {
     /// first problem met when the path of `id` is resolved with the given parent parameters
     /// (a parent parameter whose concrete id equals `id` stops the walk: the generic stands for it)
-    fn path_with(&self, id: u32, parents: &[(u32, String)], name: Option<&str>, compact_ok: bool, bits_ok: bool, depth: usize) -> Option<Hit> {
+    fn path_with(
+        &self,
+        id: u32,
+        parents: &[(u32, String)],
+        name: Option<&str>,
+        compact_ok: bool,
+        bits_ok: bool,
+        depth: usize,
+    ) -> Option<Hit> {
         if depth > 64 {
             return None;
         }
-        if parents.iter().any(|(pid, pname)| *pid == id && name.map(|n| n == pname).unwrap_or(true)) {
+        if parents
+            .iter()
+            .any(|(pid, pname)| *pid == id && name.map(|n| n == pname).unwrap_or(true))
+        {
             return None;
         }
         let Some(mut ty) = self.reg.resolve(id) else {
@@ -252,7 +297,8 @@ impl<'a> Walk<'a> {
         }
         for p in &ty.type_params {
             if let Some(t) = p.ty {
-                if let Some(h) = self.path_with(t.id, parents, None, compact_ok, bits_ok, depth + 1) {
+                if let Some(h) = self.path_with(t.id, parents, None, compact_ok, bits_ok, depth + 1)
+                {
                     return Some(h);
                 }
             }
@@ -263,7 +309,9 @@ impl<'a> Walk<'a> {
             TypeDef::Array(a) => rec(a.type_param.id),
             TypeDef::Sequence(s) => rec(s.type_param.id),
             TypeDef::Tuple(t) => t.fields.iter().find_map(|f| rec(f.id)),
-            TypeDef::Compact(c) => rec(c.type_param.id).or(if compact_ok { None } else { Some(Hit::Compact) }),
+            TypeDef::Compact(c) => {
+                rec(c.type_param.id).or(if compact_ok { None } else { Some(Hit::Compact) })
+            }
             TypeDef::BitSequence(b) => {
                 if !bits_ok {
                     return Some(Hit::Bits);
@@ -280,19 +328,25 @@ impl<'a> Walk<'a> {
             if segs.len() < 2 || (self.substituted)(segs) {
                 continue;
             }
-            let parents: Vec<(u32, String)> = t
-                .ty
-                .type_params
-                .iter()
-                .filter_map(|p| p.ty.map(|x| (x.id, p.name.clone())))
-                .collect();
+            let parents: Vec<(u32, String)> =
+                t.ty.type_params
+                    .iter()
+                    .filter_map(|p| p.ty.map(|x| (x.id, p.name.clone())))
+                    .collect();
             let all_fields: Vec<&scale_info::Field<PortableForm>> = match &t.ty.type_def {
                 TypeDef::Composite(c) => c.fields.iter().collect(),
                 TypeDef::Variant(v) => v.variants.iter().flat_map(|v| v.fields.iter()).collect(),
                 _ => continue,
             };
             for f in all_fields {
-                if let Some(h) = self.path_with(f.ty.id, &parents, f.type_name.as_deref(), compact_ok, bits_ok, 0) {
+                if let Some(h) = self.path_with(
+                    f.ty.id,
+                    &parents,
+                    f.type_name.as_deref(),
+                    compact_ok,
+                    bits_ok,
+                    0,
+                ) {
                     return Some((h, t.id));
                 }
             }
@@ -302,7 +356,8 @@ impl<'a> Walk<'a> {
 }
 
 fn is_user_def(t: &scale_info::PortableType) -> bool {
-    t.ty.path.segments.len() >= 2 && matches!(t.ty.type_def, TypeDef::Composite(_) | TypeDef::Variant(_))
+    t.ty.path.segments.len() >= 2
+        && matches!(t.ty.type_def, TypeDef::Composite(_) | TypeDef::Variant(_))
 }
 
 #[derive(Clone, Debug, Serialize, Deserialize)]
@@ -316,7 +371,13 @@ pub struct FaultCase {
 }
 
 /// Evaluate one fault on one base registry.
-pub fn check_fault(base_prog: &Program, base: &PortableRegistry, fault: &Fault, shared: bool, ctx: &mut Ctx) {
+pub fn check_fault(
+    base_prog: &Program,
+    base: &PortableRegistry,
+    fault: &Fault,
+    shared: bool,
+    ctx: &mut Ctx,
+) {
     let reg = inject(base, fault);
     let mut spec = SettingsSpec::faithful();
     spec.root = "root".into();
@@ -326,26 +387,40 @@ pub fn check_fault(base_prog: &Program, base: &PortableRegistry, fault: &Fault, 
         _ => {}
     }
     let settings = spec.build();
-    let subs: Vec<Vec<String>> = spec.substitutes.iter().map(|(f, _)| f.split("::").map(|s| s.to_string()).collect()).collect();
+    let subs: Vec<Vec<String>> = spec
+        .substitutes
+        .iter()
+        .map(|(f, _)| f.split("::").map(|s| s.to_string()).collect())
+        .collect();
     let is_sub = move |p: &[String]| subs.iter().any(|s| s.as_slice() == p);
     let walk = Walk {
         reg: &reg,
         substituted: &is_sub,
     };
     let size = base.types.len();
-    let replay = || {
-        json!({"check": "C10", "case": serde_json::to_value(FaultCase { base: base_prog.clone(), fault: fault.clone(), shared_path_base: shared }).unwrap(), "source": base_prog.to_source()})
-    };
+    let replay = || json!({"check": "C10", "case": serde_json::to_value(FaultCase { base: base_prog.clone(), fault: fault.clone(), shared_path_base: shared }).unwrap(), "source": base_prog.to_source()});
     let kind = match fault {
         Fault::SwapIds(_) => "swap-ids".to_string(),
         Fault::ShiftIds(_) => "shift-ids".to_string(),
-        Fault::MixFields { variant, .. } => format!("mix-fields/{}", if variant.is_some() { "variant" } else { "struct" }),
+        Fault::MixFields { variant, .. } => format!(
+            "mix-fields/{}",
+            if variant.is_some() {
+                "variant"
+            } else {
+                "struct"
+            }
+        ),
         Fault::CompactPathNone => "compact-path-none".into(),
         Fault::BitsPathNone => "bits-path-none".into(),
         Fault::Dangling { site, .. } => format!("dangling/{}", site.class()),
     };
     // ---- expectation for generate_types_mod
-    let first_bad_id = reg.types.iter().enumerate().find(|(i, t)| t.id != *i as u32).map(|(i, t)| (t.id, i as u32));
+    let first_bad_id = reg
+        .types
+        .iter()
+        .enumerate()
+        .find(|(i, t)| t.id != *i as u32)
+        .map(|(i, t)| (t.id, i as u32));
     let expect_gen: Option<ErrKind> = if let Some((given, expected)) = first_bad_id {
         Some(ErrKind::RegistryTypeIdsInvalid { given, expected })
     } else {
@@ -361,7 +436,11 @@ pub fn check_fault(base_prog: &Program, base: &PortableRegistry, fault: &Fault, 
                 TypeDef::Variant(v) => v.variants.iter().map(|v| &v.fields).collect(),
                 _ => vec![],
             };
-            let parents: Vec<(u32, String)> = t.ty.type_params.iter().filter_map(|p| p.ty.map(|x| (x.id, p.name.clone()))).collect();
+            let parents: Vec<(u32, String)> =
+                t.ty.type_params
+                    .iter()
+                    .filter_map(|p| p.ty.map(|x| (x.id, p.name.clone())))
+                    .collect();
             'lists: for l in lists {
                 let named = l.iter().filter(|f| f.name.is_some()).count();
                 if named != 0 && named != l.len() {
@@ -369,7 +448,14 @@ pub fn check_fault(base_prog: &Program, base: &PortableRegistry, fault: &Fault, 
                     break 'lists;
                 }
                 for f in l {
-                    if let Some(h) = walk.path_with(f.ty.id, &parents, f.type_name.as_deref(), spec.compact_path.is_some(), spec.bits_path.is_some(), 0) {
+                    if let Some(h) = walk.path_with(
+                        f.ty.id,
+                        &parents,
+                        f.type_name.as_deref(),
+                        spec.compact_path.is_some(),
+                        spec.bits_path.is_some(),
+                        0,
+                    ) {
                         exp = Some(match h {
                             Hit::Missing(i) => ErrKind::TypeNotFound(i),
                             Hit::Compact => ErrKind::CompactPathNone,
@@ -393,11 +479,19 @@ pub fn check_fault(base_prog: &Program, base: &PortableRegistry, fault: &Fault, 
         GenOutcome::Err(e) => e.name(),
         GenOutcome::Panic(_) => "PANIC".to_string(),
     };
-    ctx.outcome(&(kind.clone(), "generate", got_kind.clone(), expect_gen.is_some()));
+    ctx.outcome(&(
+        kind.clone(),
+        "generate",
+        got_kind.clone(),
+        expect_gen.is_some(),
+    ));
     match (&got, &expect_gen) {
         (GenOutcome::Panic(m), _) => ctx.violation(
             format!("C10/panic/generate/{kind}"),
-            format!("generate_types_mod panics under fault {fault:?}: {}", truncate(m, 100)),
+            format!(
+                "generate_types_mod panics under fault {fault:?}: {}",
+                truncate(m, 100)
+            ),
             replay(),
             size,
         ),
@@ -420,7 +514,9 @@ pub fn check_fault(base_prog: &Program, base: &PortableRegistry, fault: &Fault, 
         }
         (GenOutcome::Err(g), None) => ctx.violation(
             format!("C10/spurious-error/generate/{kind}/{}", g.name()),
-            format!("generate_types_mod under fault {fault:?} (which no generated type reaches): {g:?}"),
+            format!(
+                "generate_types_mod under fault {fault:?} (which no generated type reaches): {g:?}"
+            ),
             replay(),
             size,
         ),
@@ -433,7 +529,9 @@ pub fn check_fault(base_prog: &Program, base: &PortableRegistry, fault: &Fault, 
     }
     ctx.exec(1);
     let mut r2 = reg.clone();
-    let got = guarded(|| scale_typegen::utils::ensure_unique_type_paths(&mut r2).map_err(|e| ErrKind::of(&e)));
+    let got = guarded(|| {
+        scale_typegen::utils::ensure_unique_type_paths(&mut r2).map_err(|e| ErrKind::of(&e))
+    });
     let got_kind = match &got {
         Ok(Ok(())) => "Ok".to_string(),
         Ok(Err(e)) => e.name(),
@@ -479,7 +577,14 @@ pub fn check_fault(base_prog: &Program, base: &PortableRegistry, fault: &Fault, 
         for id in ids {
             ctx.exec(1);
             let want = walk
-                .path_with(id, &[], None, spec.compact_path.is_some(), spec.bits_path.is_some(), 0)
+                .path_with(
+                    id,
+                    &[],
+                    None,
+                    spec.compact_path.is_some(),
+                    spec.bits_path.is_some(),
+                    0,
+                )
                 .map(|h| match h {
                     Hit::Missing(i) => ErrKind::TypeNotFound(i),
                     Hit::Compact => ErrKind::CompactPathNone,
@@ -488,7 +593,10 @@ pub fn check_fault(base_prog: &Program, base: &PortableRegistry, fault: &Fault, 
             match (resolve_path(&reg, &settings, id), want) {
                 (Err(p), _) => ctx.violation(
                     format!("C10/panic/resolve/{kind}"),
-                    format!("resolve_type_path({id}) panics under fault {fault:?}: {}", truncate(&p, 100)),
+                    format!(
+                        "resolve_type_path({id}) panics under fault {fault:?}: {}",
+                        truncate(&p, 100)
+                    ),
                     replay(),
                     size,
                 ),
@@ -544,7 +652,9 @@ pub fn check_fault_free(case: &Case, ctx: &mut Ctx) {
     }
     ctx.exec(1);
     let mut r2 = reg.clone();
-    match guarded(|| scale_typegen::utils::ensure_unique_type_paths(&mut r2).map_err(|e| ErrKind::of(&e))) {
+    match guarded(|| {
+        scale_typegen::utils::ensure_unique_type_paths(&mut r2).map_err(|e| ErrKind::of(&e))
+    }) {
         Ok(Ok(())) => {}
         Ok(Err(e)) => ctx.violation(
             format!("C10/fault-free/dedup-error/{}", e.name()),
@@ -612,15 +722,24 @@ pub fn run(tier: &str, seed: u64) -> i32 {
             max_insts: 2,
             include_cf3: false,
             body_forms: ALL_BODY_FORMS.to_vec(),
-            param_forms: if thorough { ALL_PARAM_FORMS.to_vec() } else { vec![ParamForm::One, ParamForm::Two, ParamForm::TwoSecondSkipped] },
+            param_forms: if thorough {
+                ALL_PARAM_FORMS.to_vec()
+            } else {
+                vec![ParamForm::One, ParamForm::Two, ParamForm::TwoSecondSkipped]
+            },
         };
         let (gall, _, _) = enumerate(&dg, if thorough { 3 } else { 2 }, 5_000_000);
         let bases: Vec<Program> = gall
             .into_iter()
-            .filter(|(_, s)| s.insts.len() == 2 && !s.fields.is_empty() && crate::checks::c05::wf5_ok(s))
+            .filter(|(_, s)| {
+                s.insts.len() == 2 && !s.fields.is_empty() && crate::checks::c05::wf5_ok(s)
+            })
             .filter_map(|(_, s)| {
                 let prog = s.program();
-                s.insts.iter().all(|a| coincidence(&prog.defs[G_D], a, &prog).is_ok()).then_some(prog)
+                s.insts
+                    .iter()
+                    .all(|a| coincidence(&prog.defs[G_D], a, &prog).is_ok())
+                    .then_some(prog)
             })
             .collect();
         report.add(sweep(
@@ -665,27 +784,49 @@ pub fn run(tier: &str, seed: u64) -> i32 {
     }
     // fault-free side
     let settings = faithful_neighbourhood();
-    let mut st = explore(&d, &Budget { max_depth: 2, wall: Duration::from_secs(60), max_states: 10_000_000 }, seed, |s, ctx| {
-        for (prog, pos) in arms_programs(&s.expr) {
-            for n_name in SPECIAL_NAMES {
-                if n_name != "N" && s.depth > 0 {
-                    continue;
-                }
-                let mut prog = prog.clone();
-                prog.defs[D_N].name = n_name.to_string();
-                for (sname, spec) in settings.iter().take(if s.depth >= 2 { 1 } else { 4 }) {
-                    check_fault_free(&Case::new(RegSrc::Prog(prog.clone()), spec.clone(), format!("fault-free D-arms {pos} {sname} N={n_name}")), ctx);
+    let mut st = explore(
+        &d,
+        &Budget {
+            max_depth: 2,
+            wall: Duration::from_secs(60),
+            max_states: 10_000_000,
+        },
+        seed,
+        |s, ctx| {
+            for (prog, pos) in arms_programs(&s.expr) {
+                for n_name in SPECIAL_NAMES {
+                    if n_name != "N" && s.depth > 0 {
+                        continue;
+                    }
+                    let mut prog = prog.clone();
+                    prog.defs[D_N].name = n_name.to_string();
+                    for (sname, spec) in settings.iter().take(if s.depth >= 2 { 1 } else { 4 }) {
+                        check_fault_free(
+                            &Case::new(
+                                RegSrc::Prog(prog.clone()),
+                                spec.clone(),
+                                format!("fault-free D-arms {pos} {sname} N={n_name}"),
+                            ),
+                            ctx,
+                        );
+                    }
                 }
             }
-        }
-    });
+        },
+    );
     st.driver = format!("fault-free {}", st.driver);
     report.add(st);
-    for mut st in crate::checks::families::generic_and_family_stats("C10", thorough, seed, false, &|c, ctx| {
-        let mut c = c.clone();
-        c.dedup = false;
-        check_fault_free(&c, ctx)
-    }) {
+    for mut st in crate::checks::families::generic_and_family_stats(
+        "C10",
+        thorough,
+        seed,
+        false,
+        &|c, ctx| {
+            let mut c = c.clone();
+            c.dedup = false;
+            check_fault_free(&c, ctx)
+        },
+    ) {
         st.driver = format!("fault-free {}", st.driver);
         report.add(st);
     }
@@ -709,7 +850,13 @@ pub fn run(tier: &str, seed: u64) -> i32 {
     // registries produced by the real scale-info (the conformance corpus) and Polkadot
     let mut cases: Vec<Case> = crate::corpus::defs::real_registries()
         .into_iter()
-        .map(|(name, r)| Case::new(RegSrc::Raw(r), SettingsSpec::faithful(), format!("corpus root {name}")))
+        .map(|(name, r)| {
+            Case::new(
+                RegSrc::Raw(r),
+                SettingsSpec::faithful(),
+                format!("corpus root {name}"),
+            )
+        })
         .collect();
     let mut sp = SettingsSpec::faithful();
     sp.root = "runtime_types".into();
